@@ -209,6 +209,27 @@ func RunHistory(t *core.T) {
 		w[i] = s.Pick([]int{1, 1, 1, 1}, "w") // 0..3
 	}
 	w[0] += 2 // adds keep the tree populated
+	if s.Chance(1, 80, "preload") {
+		// scale: hundreds to thousands of stored pointers, long chains of duplicates
+		n := []int{300, 1000, 3000}[s.Intn(3, "npre")]
+		dup := s.Intn(len(r.w.Pool), "duppt")
+		for i := 0; i < n; i++ {
+			p := r.w.Pool[dup]
+			if i%3 != 0 {
+				p = orb.Point{r.w.Bound.Min[0] + float64(s.Intn(int(2*r.w.W*16)+1, "px"))/16, r.w.Bound.Min[1] + float64(s.Intn(int(2*r.w.W*16)+1, "py"))/16}
+			}
+			x := r.newPt(p)
+			if t.Guard("Add", func() { r.tr.Add(x) }) {
+				return
+			}
+			r.m.Add(x)
+		}
+		t.Probe("preloaded_tree")
+		t.Logf("preloaded %d pointers (every third at %v)", n, r.w.Pool[dup])
+		if !r.contents("preload") {
+			return
+		}
+	}
 	maxOps := []int{6, 20, 60, 150, 400}[s.Pick([]int{2, 3, 3, 2, 1}, "len")]
 	s.Repeat(1, maxOps, maxOps, "op", func(i int) {
 		if t.Failed() {
